@@ -559,6 +559,57 @@ fn long_runs(args: &Args) {
     }
 }
 
+/// Conservation with a real `Cursor` as the reader: whatever the outcome, the bytes the cursor
+/// gave up (its position delta) are exactly the bytes stored in guest memory, in order - also when
+/// an exact-form transfer fails because the cursor runs dry (nothing may be consumed and dropped).
+fn cursor_conservation(args: &Args) {
+    use std::io::Cursor;
+    let rig = Rig::new();
+    let mut n = 0u64;
+    for t in [Target::Slice, Target::Region, Target::GuestTwoRegions, Target::GuestEndsInHole] {
+        let (off, run) = rig.geometry(t);
+        for e in [Entry::ReadUpTo, Entry::ReadExact] {
+            for avail in [0usize, 1, 3, 8, run - 1, run, run + 1, run + 9] {
+                for start in [0u64, 2] {
+                    for count in [1usize, 3, 8, run - 1, run, run + 1] {
+                        if (n % args.shard().1) != args.shard().0 {
+                            n += 1;
+                            continue;
+                        }
+                        n += 1;
+                        rig.reset();
+                        let before = rig.linear(t);
+                        let data: Vec<u8> = (0..start as usize + avail).map(src_byte).collect();
+                        let mut c = Cursor::new(&data[..]);
+                        c.set_position(start);
+                        let outc = rig.read_from(t, e, &mut c, count);
+                        let consumed = (c.position() - start) as usize;
+                        let after = rig.linear(t);
+                        // stored bytes: the longest prefix at `off` that now holds the stream bytes
+                        let mut stored = 0usize;
+                        while stored < consumed.max(count).min(after.len() - off) && after[off + stored] == data.get(start as usize + stored).copied().unwrap_or(0xff) && after[off + stored] != before[off + stored] {
+                            stored += 1;
+                        }
+                        let frame_ok = after.iter().enumerate().all(|(i, b)| (i >= off && i < off + stored) || *b == before[i]);
+                        if consumed != stored || !frame_ok {
+                            v("cursor/bytes-consumed-from-the-reader-differ-from-bytes-stored", t, e, &[], count, jobj! {"cursor_start" => start, "available" => avail, "consumed" => consumed, "stored_in_order" => stored, "outcome" => J::dbg(&outc), "frame_ok" => frame_ok});
+                        }
+                        let want = count.min(avail).min(run);
+                        if let Outcome::Ok(k) = &outc {
+                            if *k != stored || (e == Entry::ReadExact && stored != count) || (e == Entry::ReadUpTo && stored != want) {
+                                v("cursor/ok-count-differs-from-bytes-stored", t, e, &[], count, jobj! {"returned" => *k, "stored" => stored, "available" => avail});
+                            }
+                        }
+                        out::key(&format!("cursor|{:?}|{:?}|avail{}|count{}|{}", e, t, if avail < count { "<count" } else { ">=count" }, if count > run { ">run" } else { "<=run" }, matches!(outc, Outcome::Ok(_))), true);
+                        out::eval(1);
+                    }
+                }
+            }
+        }
+    }
+    out::count("cursor_conservation_cases", n as i128);
+}
+
 /// "Interrupted any number of times in a row": storms of more than 10^5 consecutive interruptions,
 /// at the start of a transfer and after partial progress, for every entry point and target.
 fn interruption_storms(args: &Args) {
@@ -689,6 +740,7 @@ pub fn run(args: &Args) {
     if !cfg!(miri) {
         long_runs(args);
         interruption_storms(args);
+        cursor_conservation(args);
     }
     if args.shard().0 == 0 {
         fd_replay(args);
